@@ -107,7 +107,9 @@ def build(d):
         return build_schema(d["cls"], d["props"])
     if k == "expr":      # a DSL / literal expression (bounded complement zoo): readable in replay files
         try:
-            return eval(d["src"], {"schema": schema, "optional": optional, "Nil": Nil, "object": object, "__builtins__": {}})
+            import threading
+            return eval(d["src"], {"schema": schema, "optional": optional, "Nil": Nil, "object": object, "datetime": _dt.datetime,
+                                   "date": _dt.date, "UUID": _uuid.UUID, "Lock": threading.Lock, "float": float, "__builtins__": {}})
         except DeclarationError as e:
             raise Unreachable(f"DSL refuses the expression: {e}")
     if k == "optional":
@@ -1219,10 +1221,18 @@ def oracle_C16(inp, meta=None):
             A, B = E(inner), E(cust)
             if repr(A) != repr(B):
                 return True, f"printed form differs ({ename}): {A!r} vs {B!r}"
-            vals = [g for _, g in _samples(A)[:4] if not isinstance(g, Exception)] + [None, {"k": 1}, [1], {"a": [{"b": None}]}]
+            import threading
+            token = type("Token", (), {})()
+            vals = [g for _, g in _samples(A)[:4] if not isinstance(g, Exception)] + \
+                [None, {"k": 1}, [1], {"a": [{"b": None}]}, token, {"k": token}, [token], threading.Lock(), {"k": threading.Lock()},
+                 0, "", False, [], {}, {"k": 0}, {"k": ""}, [0], [""]]
             for v in vals:
-                ea = [repr(e) for e in validate(A, v).get_errors()]
-                eb = [repr(e) for e in validate(B, v).get_errors()]
+                def errs(S_):
+                    try:
+                        return [(type(e).__name__, repr(e.path), id(e.actual_value)) for e in validate(S_, v).get_errors()]
+                    except Exception as x:
+                        return ["RAISED " + type(x).__name__]
+                ea, eb = errs(A), errs(B)
                 if ea != eb:
                     return True, f"validation differs ({ename}) on {v!r}: {ea} vs {eb}"
                 ra, rb = _substitute(A, v), _substitute(B, v)
